@@ -14,7 +14,7 @@ use std::time::Duration;
 
 pub static PROP: Prop = Prop {
     id: "C08",
-    rule: "cases: histories of 2-14 steps, each in a fresh child process over 1-2 persistent threads: register_function / register_prefix_op / register_postfix_op / register_infix_op(name, precedence, associativity) with handlers that return List[id, operands...] (a quarter of the function handlers also (re-)register a function when they run - possibly the one whose call they are an argument of; one infix registration in ten - two in three when it overrides an assignment operator - is of kind SETTER: the handler's value is bound to the left operand's name); names are fresh words (identifiers and spellings that are none: is-not, ~=, @@, не, enthält, divisible-by, содержит, größer_als), re-registrations of earlier names and built-in names (min, sum, +, - prefix, ++, in, &&) - also as the very first engine call of the process; symbolic operators only as one-character extensions of existing operators or of the conditional's marks (`:=`, `??`, `?:`); precedences from {1, 2, 19, 20, 21, 39..41, 59..61, 109..111, 119..121, 199..201, 10^9-1, 10^9} and uniform 1..=10^9 (an operator on an existing level takes that level's associativity); parse(text) and exec(text, context) steps with flat programs generated over the CURRENT operator table that use the registered names often; contexts that shadow a global function with a context function, bind the same name as a variable, or leave it unbound. Oracle: a model registry updated per step (insert semantics); parse => reference parser parameterised by the model table; exec => reference evaluator whose handlers return List[id, args...], call dispatch = context function, else global, else error. Plus pairs of operators at 999 999 999 / 10^9, 6*10^8 / 9*10^8 and around 2^29, held-initialisation scenarios in which built-ins are overridden while another thread's first use is parked mid-initialisation, free-running races in which a function / prefix / infix / postfix operator is re-registered thousands of times while 2-4 threads evaluate a program that uses it once (every evaluation must dispatch to one of the two handlers), a fixed table of SETTER overrides of `=`, `+=`, `|=` and a new word, and the exhaustive adjacent-precedence table: a new operator at p in {q-1, q, q+1} x {LEFT, RIGHT where allowed} on either side of each of the 11 built-in levels q. Non-trivial: a re-registration, built-in override or context shadow that is subsequently used, or an operator whose precedence differs by exactly 1 from another operator used in the same text; distinct by (step-kind sequence, relative precedence pattern).",
+    rule: "cases: histories of 2-14 steps, each in a fresh child process over 1-2 persistent threads: register_function / register_prefix_op / register_postfix_op / register_infix_op(name, precedence, associativity) with handlers that return List[id, operands...] (a quarter of the function handlers also (re-)register a function when they run - possibly the one whose call they are an argument of; one infix registration in ten - two in three when it overrides an assignment operator - is of kind SETTER: the handler's value is bound to the left operand's name); names are fresh words (identifiers and spellings that are none: is-not, ~=, @@, не, enthält, divisible-by, содержит, größer_als), re-registrations of earlier names and built-in names (min, sum, +, - prefix, ++, in, &&) - also as the very first engine call of the process; symbolic operators only as one-character extensions of existing operators or of the conditional's marks (`:=`, `??`, `?:`); precedences from {1, 2, 19, 20, 21, 39..41, 59..61, 109..111, 119..121, 199..201, 10^9-1, 10^9} and uniform 1..=10^9 (an operator on an existing level takes that level's associativity); parse(text) and exec(text, context) steps with flat programs generated over the CURRENT operator table that use the registered names often; contexts that shadow a global function with a context function, bind the same name as a variable, or leave it unbound (and fixed programs in which an assignment turns a context function into a variable before it is called again). Oracle: a model registry updated per step (insert semantics); parse => reference parser parameterised by the model table; exec => reference evaluator whose handlers return List[id, args...], call dispatch = context function, else global, else error. Plus pairs of operators at 999 999 999 / 10^9, 6*10^8 / 9*10^8 and around 2^29, held-initialisation scenarios in which built-ins are overridden while another thread's first use is parked mid-initialisation, free-running races in which a function / prefix / infix / postfix operator is re-registered thousands of times while 2-4 threads evaluate a program that uses it once (every evaluation must dispatch to one of the two handlers), a fixed table of SETTER overrides of `=`, `+=`, `|=` and a new word, and the exhaustive adjacent-precedence table: a new operator at p in {q-1, q, q+1} x {LEFT, RIGHT where allowed} on either side of each of the 11 built-in levels q. Non-trivial: a re-registration, built-in override or context shadow that is subsequently used, or an operator whose precedence differs by exactly 1 from another operator used in the same text; distinct by (step-kind sequence, relative precedence pattern).",
     assumptions: &[
         "an operator registered at an existing precedence level is given that level's associativity (mixed associativity on one level is undocumented)",
         "one spelling is not registered both as postfix and as prefix/infix operator (undocumented)",
@@ -557,6 +557,15 @@ fn fixed(env: &Env, st: &mut Stats) -> CaseResult {
         vec![
             json!({"op": "reg_fn", "name": "fa", "id": 24, "thread": 0, "registers": {"name": "late", "id": 25}}),
             json!({"op": "exec", "text": "late ( fa ( 1 ) )", "ctx": {}, "thread": 0}),
+        ],
+        // a name changes the kind of its binding within one program: `f = 5` turns a context
+        // function into a variable (the call then reaches the global f), and back
+        vec![
+            json!({"op": "reg_fn", "name": "f", "id": 31, "thread": 0}),
+            json!({"op": "exec", "text": "[ f ( 1 ) , f = 5 , f ( 2 ) , f ]", "ctx": {"f": {"fn": 32}}, "thread": 0}),
+            json!({"op": "exec", "text": "f = 5 ; [ f ( 3 ) , f ]", "ctx": {"f": {"fn": 33}}, "thread": 0}),
+            json!({"op": "exec", "text": "g = 1 ; g ( 4 )", "ctx": {"g": {"fn": 34}}, "thread": 0}),
+            json!({"op": "exec", "text": "sum = 2 ; [ sum ( 4 , 5 ) , sum ]", "ctx": {"sum": {"fn": 35}}, "thread": 0}),
         ],
         vec![
             json!({"op": "reg_fn", "name": "fa", "id": 26, "thread": 0, "registers": {"name": "min", "id": 27}}),
